@@ -121,9 +121,30 @@ Definition norm_agree (c : normcase) : bool :=
   Qeq_bool after_model before &&
   qle (Qabs (after_impl - before)) (tol_obj * (before + normX2)).
 
-Inductive body := CPBlock (c : cpcase) | Hals (c : halscase) | LSBlock (c : lscase) | Norm (c : normcase).
+(* ridge block of CPRegressor.fit (scalar responses): samples, responses, factors before the block, mode, the implementation's
+   new factor.  The design matrix is NOT taken from the implementation: the model derives it from the samples (flattened MTTKRPs);
+   the implementation's new factor must satisfy the normal equations of that model system and must not increase the exact objective *)
+Record regcase := mkRg {
+  r_Xs : list (tensor Q); r_ys : list Q; r_facs : list qmat; r_k : nat; r_rank : nat; r_reg : Q; r_xnew : qmat }.
+Definition reg_agree (c : regcase) : bool :=
+  let w := map (fun _ : nat => 1) (seq 0 (r_rank c)) in
+  let X0 := nth 0 (r_Xs c) (mk [] []) in
+  let dk := nth (r_k c) (shape X0) 0%nat in
+  let ns := length (r_Xs c) in
+  let ny := gsum Qops ns (fun s => Qred (nth s (r_ys c) 0 * nth s (r_ys c) 0)) in
+  forall_lt dk (fun i => forall_lt (r_rank c) (fun r =>
+    let lhs := cpreg_normal_lhs Qops (r_Xs c) (r_ys c) w (r_facs c) (r_k c) (r_rank c) (r_xnew c) i r in
+    let rhs := Qred (r_reg c * mget Qops (r_xnew c) i r) in
+    let sc := qsumabs ns (fun s => cp_mttkrp Qops (nth s (r_Xs c) (mk [] [])) w (r_facs c) (r_k c) i r *
+                (Qabs (nth s (r_ys c) 0) + Qabs (cp_inner Qops (nth s (r_Xs c) (mk [] [])) w (set_nth (r_k c) (r_xnew c) (r_facs c)) (r_rank c)))) in
+    qle (Qabs (lhs - rhs)) (tol_cert * (sc + Qabs rhs) + atol_tiny))) &&
+  (let before := cpreg_obj Qops (r_Xs c) (r_ys c) w (r_facs c) (r_k c) dk (r_rank c) (r_reg c) in
+   let after := cpreg_obj Qops (r_Xs c) (r_ys c) w (set_nth (r_k c) (r_xnew c) (r_facs c)) (r_k c) dk (r_rank c) (r_reg c) in
+   qle after (before + tol_obj * (before + ny))).
+
+Inductive body := CPBlock (c : cpcase) | Hals (c : halscase) | LSBlock (c : lscase) | Norm (c : normcase) | RegBlock (c : regcase).
 Definition case := (nat * body)%type.
 Definition agree (c : case) : bool :=
-  match snd c with CPBlock b => cp_agree b | Hals b => hals_agree b | LSBlock b => ls_agree b | Norm b => norm_agree b end.
+  match snd c with CPBlock b => cp_agree b | Hals b => hals_agree b | LSBlock b => ls_agree b | Norm b => norm_agree b | RegBlock b => reg_agree b end.
 Definition ident (c : case) : nat := fst c.
 Definition failing := failing_ids agree ident.
